@@ -130,7 +130,7 @@ def nontrivial_signature(case, obs_lines):
 
 
 def run_engine_check(prop, tier, *, model_cfgs, families, decorate_kw, nontrivial, nest_frac=0.0, nest_marks=False,
-                     extra_scenarios=None, classify=None, limit=None, assumptions=(), repo=None, model_must_fail=()):
+                     extra_scenarios=None, classify=None, limit=None, assumptions=(), repo=None, model_must_fail=(), extra_part=None):
     t0 = time.time()
     rnd = random.Random(vlib.SEED * 7919 + 13)
     log("[%s] tier=%s seed=%d repo=%s" % (prop, tier, vlib.SEED, repo or vlib.REPO))
@@ -209,6 +209,10 @@ def run_engine_check(prop, tier, *, model_cfgs, families, decorate_kw, nontrivia
         case = idx[cid][0]
         sig = classify(case, reason, obs) if classify else reason
         verdict.violation(sig, {"scenario": {k: v for k, v in next(s for s in scs if s["id"] == cid).items()}, "observations": obs}, reason)
+    extra_cov = {}
+    if extra_part:
+        n_cases, n_conf = extra_part(tier, repo, verdict.violation)
+        extra_cov = {"extra_part_cases": n_cases, "extra_part_confirmed": n_conf}
     if "C13" == prop:
         for sc, output in killed:
             verdict.violation("node-panic-killed-the-process", {"scenario": sc, "go_test_output_tail": output[-1500:]}, "an injected node panic was not contained")
@@ -234,6 +238,7 @@ def run_engine_check(prop, tier, *, model_cfgs, families, decorate_kw, nontrivia
            "exhaustive": exhaustive, "model_runs": model_runs, "families": gen_stats,
            "observation_lines": len(lines), "trace_validation_states": res["states"],
            "rejected_cases": len(bad), "rejected_for_this_property": len(mine), "confirmed": len(confirmed), "known_findings": n_known}
+    cov.update(extra_cov)
     vlib.write_evidence(prop, tier, "model_checking", cov, assumptions=list(assumptions) + [
         "node bodies are the harness's deterministic term functions; branch conditions are pure functions of the value depth",
         "TLC, the Json community module and the Go harness are trusted; graphs are bounded as listed under families"],
@@ -344,6 +349,49 @@ def c06(tier, repo=None):
                             assumptions=["'stops before any of its successors starts' is read per the statement: only successors triggered by the after-node are constrained"])
 
 
+def c13_tools_part(tier, repo, verdict_cb):
+    """C13 also promises containment of a panic inside a TOOL CALL: panicking tools (any position, any completion order) in a
+    ToolsNode that sits inside a graph, replayed with the C17 harness and judged by ToolsObs (spec/ToolsRule.tla); a rejection
+    (hang, escaped panic, swallowed failure) in such a case is reported under C13 with its own signature."""
+    try:
+        import checks_tools as ct
+    except ImportError:
+        return 0, 0
+    rnd = random.Random(vlib.SEED * 31 + 5)
+    cs, run = ct.generate("C17", "c13-tool-panics", ct.t_consts(Eager=True, MaxCalls=3, MaxTools=3, MaxChunks=1, Behs=["ok", "panic"], Kinds=["inv", "str"]),
+                          invariants=["RuleOK", "Closed"])
+    cs = [c for c in cs if c.get("graph") and any(t["beh"] == "panic" for t in c["tools"])]
+    rnd.shuffle(cs)
+    cs = cs[: 500 if tier == "quick" else 4000]
+    for i, c in enumerate(cs):
+        c["id"] = "c13tool-%d" % i
+        c["fam"] = "c13-tool-panics"
+        c["wrap"] = rnd.random() < 0.3
+        c["optlist"] = False
+
+    def once(cases):
+        code, output, wall, lines = ct.replay("C17", cases, repo=repo)
+        if code != 0 and ("panic" in output or "fatal error" in output) and "build failed" not in output:
+            lines, crashes, cases = ct.c17_crash_cases(cases, repo)
+        else:
+            vlib.go_must_run(code, output, "C13 tool-panic replay")
+        res = ct.validate("C17", lines)
+        return [(b[0], b[2]) for b in ct.bad_tuples(res)], ct.index_cases(lines)
+    bad, idx = once(cs)
+    bad = [b for b in bad if b[1] not in ("unknown-observation", "line-outside-a-case", "case-not-closed-by-an-end-line", "trace-ends-inside-a-case")]
+    confirmed = 0
+    if bad:
+        by_id = {c["id"]: c for c in cs}
+        bad2, idx2 = once([by_id[cid] for cid, _ in bad[:100] if cid in by_id])
+        for cid, reason in bad[:100]:
+            if (cid, reason) in set(bad2):
+                confirmed += 1
+                if confirmed <= 3:
+                    verdict_cb("tool-panic-not-contained:" + reason.split("/")[0], {"tools_case": by_id[cid], "observations": idx2[cid][1][:30]}, reason)
+    log("  tool-call panics inside a graph: %d cases (all completion orders) replayed on the real ToolsNode, %d rejected, %d confirmed" % (len(cs), len(bad), confirmed))
+    return len(cs), confirmed
+
+
 def c13(tier, repo=None):
     def nontrivial(case, obs):
         """the run ended in an error (node failure, panic, step limit, cancellation)"""
@@ -362,7 +410,7 @@ def c13(tier, repo=None):
                 ("fw3", consts("wf", 3, 4, 1, 0, fail=True), {"timeout": 1800})]
         limit = 300000
     return run_engine_check("C13", tier, model_cfgs=["MC_EinoRun_fail2.cfg"], families=fams, decorate_kw={"fail_variants": True},
-                            nontrivial=nontrivial, nest_frac=0.15, limit=limit, repo=repo,
+                            nontrivial=nontrivial, nest_frac=0.15, limit=limit, repo=repo, extra_part=c13_tools_part,
                             assumptions=["a failing side branch of an eager (workflow) run that does not feed END may go unreported when END is assembled first (not judged)"])
 
 
